@@ -546,7 +546,14 @@ func (w *writerA) maskImpl(rule string) {
 				}
 				continue
 			}
-			if a.Kind != core.KBin || a.Op != token.ADD {
+			// unsafe.Add(base, off) is base + off
+			isAdd := a.Kind == core.KBin && a.Op == token.ADD
+			if a.Kind == core.KCall && len(a.Args) == 2 {
+				if name, isB := a.Ref.(string); isB && name == "Add" {
+					isAdd = true
+				}
+			}
+			if !isAdd {
 				ok, why = false, "raw pointer store whose address is not base + offset"
 				continue
 			}
